@@ -3,6 +3,7 @@
    the concrete debversion model. *)
 From V.model Require Import Base RelLex RelLossy.
 From V.proofs Require Import BaseP RelLexP.
+From Coq Require Import ZifyBool.
 Set Default Timeout 60.
 
 (* ================================================================== A. the lexer, fuel-free *)
@@ -575,3 +576,282 @@ Section RoundTrip.
     apply relation_from_tokens_rt; [exact Hk| |exact Ha].
     destruct v as [[c x]|]; [|exact I]. rewrite Hc. apply Hv.
   Qed.
+
+  (* ---------------- the characters of a printed relation ---------------- *)
+  (* everything Display writes for a valid relation *)
+  Definition ptext_char (c : char) : bool :=
+    is_ident_char c || (c =? 58)%N || (c =? 32)%N || (c =? 40)%N || (c =? 41)%N || (c =? 91)%N
+    || (c =? 93)%N || (c =? 60)%N || (c =? 62)%N || (c =? 33)%N || (c =? 61)%N.
+
+  Lemma forallb_impl {A} (p q : A -> bool) l :
+    (forall x, p x = true -> q x = true) -> forallb p l = true -> forallb q l = true.
+  Proof.
+    intros H. induction l as [|x r IH]; [reflexivity|]. cbn [forallb]. intros Hl.
+    apply andb_true_iff in Hl. destruct Hl as [Hx Hr]. rewrite (H x Hx), (IH Hr). reflexivity.
+  Qed.
+  Lemma forallb_map_eq {A B} (p : B -> bool) (f : A -> B) l : forallb p (map f l) = forallb (fun x => p (f x)) l.
+  Proof. induction l as [|x r IH]; [reflexivity|]. cbn. rewrite IH. reflexivity. Qed.
+
+  Lemma forallb_join_str p sep items :
+    forallb p sep = true -> forallb (forallb p) items = true -> forallb p (join sep items) = true.
+  Proof.
+    intros Hs. induction items as [|x r IH]; [reflexivity|]. cbn [forallb]. intros H.
+    apply andb_true_iff in H. destruct H as [Hx Hr]. destruct r as [|y r']; [exact Hx|].
+    rewrite join_cons2 by discriminate. rewrite !forallb_app, Hx, Hs. cbn [andb]. apply IH. exact Hr.
+  Qed.
+
+  Lemma ident_ok_ptext s : ident_ok s = true -> forallb ptext_char s = true.
+  Proof.
+    destruct s as [|c r]; [discriminate|]. unfold ident_ok. apply forallb_impl.
+    intros x Hx. unfold ptext_char. rewrite Hx. reflexivity.
+  Qed.
+  Lemma arch_ok_ptext s : arch_ok s = true -> forallb ptext_char s = true.
+  Proof.
+    unfold arch_ok. destruct s as [|c r]; [discriminate|]. destruct (N.eqb_spec c 33) as [->|_].
+    - intros H. cbn [forallb]. rewrite (ident_ok_ptext r H). reflexivity.
+    - apply ident_ok_ptext.
+  Qed.
+  Lemma profile_ok_ptext p : profile_ok p = true -> forallb ptext_char (profile_print p) = true.
+  Proof.
+    destruct p as [s|s]; cbn [profile_ok profile_print]; intros H.
+    - apply ident_ok_ptext. exact H.
+    - cbn [forallb]. rewrite (ident_ok_ptext s H). reflexivity.
+  Qed.
+  Lemma version_text_ptext s : version_text_ok s = true -> forallb ptext_char s = true.
+  Proof.
+    unfold version_text_ok. apply forallb_impl. intros c. unfold ptext_char. lia.
+  Qed.
+
+  Lemma print_relation_ptext r : relation_ok vparse vprint r -> forallb ptext_char (print_relation vprint r) = true.
+  Proof.
+    destruct r as [n q a v ps]. intros (Hn & Hq & Hv & Ha & Hp).
+    cbn [r_name r_archqual r_version r_archs r_profiles] in *.
+    rewrite print_relation_pieces. rewrite !forallb_app.
+    rewrite (ident_ok_ptext n Hn). cbn [andb].
+    assert (Eq : forallb ptext_char (aq_text q) = true).
+    { destruct q as [s|]; [|reflexivity]. cbn [aq_text forallb]. rewrite (ident_ok_ptext s Hq). reflexivity. }
+    assert (Ev : forallb ptext_char (ver_text v) = true).
+    { destruct v as [[c x]|]; [|reflexivity]. unfold ver_text. rewrite !forallb_app.
+      rewrite (version_text_ptext _ (proj1 Hv)). destruct c; reflexivity. }
+    assert (Ea : forallb ptext_char (archs_text a) = true).
+    { destruct a as [l|]; [|reflexivity]. unfold archs_text. rewrite !forallb_app.
+      rewrite forallb_join_str; [reflexivity|reflexivity|].
+      eapply forallb_impl; [|exact Ha]. apply arch_ok_ptext. }
+    assert (Ep : forallb ptext_char (flat_map group_text ps) = true).
+    { clear -Hp. induction ps as [|g r IH]; [reflexivity|]. cbn [forallb] in Hp.
+      apply andb_true_iff in Hp. destruct Hp as [Hg Hr]. cbn [flat_map]. rewrite forallb_app, (IH Hr), andb_true_r.
+      unfold group_text. rewrite !forallb_app. rewrite forallb_join_str; [reflexivity|reflexivity|].
+      rewrite forallb_map_eq. eapply forallb_impl; [|exact Hg]. apply profile_ok_ptext. }
+    rewrite Eq, Ev, Ea, Ep. reflexivity.
+  Qed.
+
+  (* ---------------- first and last character, trim, split ---------------- *)
+  Definition first_ok (s : str) : Prop := exists c r, s = c :: r /\ is_unicode_ws c = false.
+  Definition last_ok (s : str) : Prop := exists r c, s = r ++ [c] /\ is_unicode_ws c = false.
+
+  Lemma ident_char_not_ws c : is_ident_char c = true -> is_unicode_ws c = false.
+  Proof. unfold is_ident_char, is_ascii_alnum, is_unicode_ws. lia. Qed.
+
+  Lemma ident_ok_first s : ident_ok s = true -> first_ok s.
+  Proof.
+    intros H. destruct (ident_ok_head s H) as (c & r & -> & Hc). exists c, r. split; [reflexivity|].
+    apply ident_char_not_ws. exact Hc.
+  Qed.
+  Lemma ident_ok_last s : ident_ok s = true -> last_ok s.
+  Proof.
+    intros H. destruct s as [|c0 r0]; [discriminate|]. unfold ident_ok in H.
+    destruct (exists_last (l := c0 :: r0) ltac:(discriminate)) as (r & c & E). rewrite E in *.
+    exists r, c. split; [reflexivity|]. rewrite forallb_app in H. apply andb_true_iff in H.
+    destruct H as [_ H]. cbn [forallb] in H. rewrite andb_true_r in H. apply ident_char_not_ws. exact H.
+  Qed.
+  Lemma last_ok_app_r a b : last_ok b -> last_ok (a ++ b).
+  Proof. intros (r & c & -> & H). exists (a ++ r), c. rewrite app_assoc. split; [reflexivity|exact H]. Qed.
+  Lemma first_ok_app_l a b : first_ok a -> first_ok (a ++ b).
+  Proof. intros (c & r & -> & H). exists c, (r ++ b). split; [reflexivity|exact H]. Qed.
+  Lemma last_ok_end a c : is_unicode_ws c = false -> last_ok (a ++ [c]).
+  Proof. intros H. exists a, c. split; [reflexivity|exact H]. Qed.
+
+  Lemma print_relation_first r : relation_ok vparse vprint r -> first_ok (print_relation vprint r).
+  Proof.
+    destruct r as [n q a v ps]. intros (Hn & _). cbn [r_name] in Hn. rewrite print_relation_pieces.
+    apply first_ok_app_l, ident_ok_first. exact Hn.
+  Qed.
+
+  Lemma exists_last_or_nil {A} (l : list A) : l = [] \/ exists l' x, l = l' ++ [x].
+  Proof. destruct l as [|a r]; [left; reflexivity|right]. destruct (exists_last (l := a :: r) ltac:(discriminate)) as (l' & x & E). exists l', x. exact E. Qed.
+
+  Lemma print_relation_last r : relation_ok vparse vprint r -> last_ok (print_relation vprint r).
+  Proof.
+    destruct r as [n q a v ps]. intros (Hn & Hq & _). cbn [r_name r_archqual] in Hn, Hq.
+    rewrite print_relation_pieces.
+    destruct (exists_last_or_nil ps) as [->|(ps' & g & ->)].
+    2:{ rewrite flat_map_app. cbn [flat_map]. rewrite app_nil_r. unfold group_text at 2.
+        rewrite !app_assoc. apply last_ok_end. reflexivity. }
+    cbn [flat_map]. rewrite app_nil_r.
+    destruct a as [l|].
+    { unfold archs_text. rewrite !app_assoc. apply last_ok_end. reflexivity. }
+    cbn [archs_text]. rewrite app_nil_r.
+    destruct v as [[c x]|].
+    { unfold ver_text. rewrite !app_assoc. apply last_ok_end. reflexivity. }
+    cbn [ver_text]. rewrite app_nil_r.
+    destruct q as [s|].
+    { apply last_ok_app_r. cbn [aq_text]. change (58%N :: s) with ([58%N] ++ s). apply last_ok_app_r, ident_ok_last. exact Hq. }
+    cbn [aq_text]. rewrite app_nil_r. apply ident_ok_last. exact Hn.
+  Qed.
+
+  Lemma trim_start_ws w s : forallb is_unicode_ws w = true -> first_ok s -> trim_start (w ++ s) = s.
+  Proof.
+    intros Hw (c & r & -> & Hc). induction w as [|x w IH].
+    - cbn [app trim_start]. rewrite Hc. reflexivity.
+    - cbn [forallb] in Hw. apply andb_true_iff in Hw. destruct Hw as [Hx Hw].
+      cbn [app trim_start]. rewrite Hx. apply IH. exact Hw.
+  Qed.
+  Lemma forallb_rev {A} (p : A -> bool) l : forallb p (rev l) = forallb p l.
+  Proof.
+    induction l as [|x r IH]; [reflexivity|]. cbn [rev forallb]. rewrite forallb_app, IH. cbn [forallb].
+    rewrite andb_true_r. apply andb_comm.
+  Qed.
+  Lemma trim_end_ws s w : forallb is_unicode_ws w = true -> last_ok s -> trim_end (s ++ w) = s.
+  Proof.
+    intros Hw (r & c & -> & Hc). unfold trim_end. rewrite rev_app_distr, rev_app_distr. cbn [rev app].
+    rewrite trim_start_ws; [|rewrite forallb_rev; exact Hw|exists c, (rev r); split; [reflexivity|exact Hc]].
+    cbn [rev]. rewrite rev_involutive. reflexivity.
+  Qed.
+  Lemma trim_pad w1 s w2 :
+    forallb is_unicode_ws w1 = true -> forallb is_unicode_ws w2 = true -> first_ok s -> last_ok s ->
+    trim (w1 ++ s ++ w2) = s.
+  Proof.
+    intros H1 H2 Hf Hl. unfold trim. rewrite trim_start_ws; [|exact H1|apply first_ok_app_l; exact Hf].
+    apply trim_end_ws; assumption.
+  Qed.
+
+  Lemma split_on_go_app sep a : forall rest acc, forallb (fun c => negb (c =? sep)%N) a = true ->
+    split_on_go sep (a ++ rest) acc = split_on_go sep rest (acc ++ a).
+  Proof.
+    induction a as [|c r IH]; intros rest acc H; [rewrite app_nil_r; reflexivity|].
+    cbn [forallb] in H. apply andb_true_iff in H. destruct H as [Hc Hr]. apply negb_true_iff in Hc.
+    cbn [app split_on_go]. rewrite Hc, (IH _ _ Hr), <- app_assoc. reflexivity.
+  Qed.
+  Lemma split_on_last sep a : forallb (fun c => negb (c =? sep)%N) a = true -> split_on sep a = [a].
+  Proof.
+    intros H. unfold split_on. rewrite <- (app_nil_r a) at 1. rewrite split_on_go_app by exact H. reflexivity.
+  Qed.
+  Lemma split_on_piece sep a b : forallb (fun c => negb (c =? sep)%N) a = true ->
+    split_on sep (a ++ sep :: b) = a :: split_on sep b.
+  Proof.
+    intros H. unfold split_on. rewrite split_on_go_app by exact H. cbn [split_on_go app].
+    rewrite N.eqb_refl. reflexivity.
+  Qed.
+
+  Lemma ptext_no_sep sep s : ptext_char sep = false -> forallb ptext_char s = true ->
+    forallb (fun c => negb (c =? sep)%N) s = true.
+  Proof.
+    intros Hs. apply forallb_impl. intros c Hc. apply negb_true_iff.
+    destruct (N.eqb_spec c sep) as [->|_]; [congruence|reflexivity].
+  Qed.
+
+  (* ---------------- alternatives and entries ---------------- *)
+  Definition alts_ok (e : list (relation V)) : Prop := e <> [] /\ Forall (relation_ok vparse vprint) e.
+
+  Lemma print_entry_cons r e : e <> [] ->
+    print_entry vprint (r :: e) = print_relation vprint r ++ [32; 124; 32]%N ++ print_entry vprint e.
+  Proof. intros H. unfold print_entry. cbn [map]. apply join_cons2. destruct e; [congruence|discriminate]. Qed.
+
+  Lemma read_alternatives_cons p rest r : trim p <> [] -> relation_from_str vparse (trim p) = Ok r ->
+    read_alternatives vparse (p :: rest) = bind (read_alternatives vparse rest) (fun rs => Ok (r :: rs)).
+  Proof.
+    intros Hne Hr. cbn [read_alternatives]. destruct (trim p) eqn:E; [congruence|]. rewrite Hr. reflexivity.
+  Qed.
+  Lemma read_entries_cons e rest alts : trim e <> [] ->
+    read_alternatives vparse (split_on 124%N (trim e)) = Ok alts ->
+    read_entries vparse (e :: rest) = bind (read_entries vparse rest) (fun ents => Ok (alts :: ents)).
+  Proof.
+    intros Hne Hr. cbn [read_entries]. destruct (trim e) eqn:E; [congruence|]. rewrite Hr. reflexivity.
+  Qed.
+  Lemma first_ok_nonempty s : first_ok s -> s <> [].
+  Proof. intros (c & r & -> & _). discriminate. Qed.
+
+  Lemma read_alternatives_rt e : forall w, alts_ok e -> forallb is_unicode_ws w = true ->
+    forallb (fun c => negb (c =? 124)%N) w = true ->
+    read_alternatives vparse (split_on 124%N (w ++ print_entry vprint e)) = Ok e.
+  Proof.
+    induction e as [|r e IH]; intros w [Hne Hall] Hw Hw2; [congruence|].
+    inversion Hall as [|? ? Hr He]; subst.
+    pose proof (print_relation_ptext r Hr) as Hp.
+    pose proof (ptext_no_sep 124%N _ eq_refl Hp) as Hnp.
+    pose proof (print_relation_first r Hr) as Hf. pose proof (print_relation_last r Hr) as Hl.
+    destruct e as [|r2 e2].
+    - unfold print_entry. cbn [map join]. rewrite split_on_last by (rewrite forallb_app, Hw2, Hnp; reflexivity).
+      assert (Et : trim (w ++ print_relation vprint r) = print_relation vprint r).
+      { rewrite <- (app_nil_r (print_relation vprint r)) at 1. apply trim_pad; try assumption; reflexivity. }
+      rewrite (read_alternatives_cons _ _ r); [reflexivity|rewrite Et; apply first_ok_nonempty; exact Hf|].
+      rewrite Et. apply relation_rt. exact Hr.
+    - rewrite print_entry_cons by discriminate.
+      replace (w ++ print_relation vprint r ++ [32; 124; 32]%N ++ print_entry vprint (r2 :: e2))
+        with ((w ++ print_relation vprint r ++ [32%N]) ++ 124%N :: [32%N] ++ print_entry vprint (r2 :: e2))
+        by (rewrite <- !app_assoc; reflexivity).
+      rewrite split_on_piece by (rewrite !forallb_app, Hw2, Hnp; reflexivity).
+      assert (Et : trim (w ++ print_relation vprint r ++ [32%N]) = print_relation vprint r)
+        by (apply trim_pad; try assumption; reflexivity).
+      rewrite (read_alternatives_cons _ _ r); [|rewrite Et; apply first_ok_nonempty; exact Hf|rewrite Et; apply relation_rt; exact Hr].
+      rewrite IH; [reflexivity|split; [discriminate|exact He]|reflexivity|reflexivity].
+  Qed.
+
+  Lemma print_entry_props e : alts_ok e ->
+    forallb (fun c => negb (c =? 44)%N) (print_entry vprint e) = true
+    /\ first_ok (print_entry vprint e) /\ last_ok (print_entry vprint e).
+  Proof.
+    induction e as [|r e IH]; intros [Hne Hall]; [congruence|].
+    inversion Hall as [|? ? Hr He]; subst.
+    pose proof (ptext_no_sep 44%N _ eq_refl (print_relation_ptext r Hr)) as Hnp.
+    destruct e as [|r2 e2].
+    - unfold print_entry. cbn [map join]. split; [exact Hnp|]. split; [apply print_relation_first|apply print_relation_last]; exact Hr.
+    - rewrite print_entry_cons by discriminate.
+      destruct IH as (I1 & I2 & I3); [split; [discriminate|exact He]|].
+      split; [rewrite !forallb_app, Hnp, I1; reflexivity|].
+      split; [apply first_ok_app_l, print_relation_first; exact Hr|].
+      apply last_ok_app_r, last_ok_app_r. exact I3.
+  Qed.
+
+  Lemma print_relations_cons e es : es <> [] ->
+    print_relations vprint (e :: es) = print_entry vprint e ++ [44; 32]%N ++ print_relations vprint es.
+  Proof. intros H. unfold print_relations. cbn [map]. apply join_cons2. destruct es; [congruence|discriminate]. Qed.
+
+  Lemma read_entries_rt es : forall w, Forall alts_ok es -> es <> [] -> forallb is_unicode_ws w = true ->
+    forallb (fun c => negb (c =? 44)%N) w = true ->
+    read_entries vparse (split_on 44%N (w ++ print_relations vprint es)) = Ok es.
+  Proof.
+    induction es as [|e es IH]; intros w Hall Hne Hw Hw2; [congruence|].
+    inversion Hall as [|? ? He Hes]; subst.
+    destruct (print_entry_props e He) as (Hnc & Hf & Hl).
+    assert (Halt : read_alternatives vparse (split_on 124%N (print_entry vprint e)) = Ok e)
+      by (apply (read_alternatives_rt e [] He); reflexivity).
+    assert (Et : trim (w ++ print_entry vprint e) = print_entry vprint e).
+    { rewrite <- (app_nil_r (print_entry vprint e)) at 1. apply trim_pad; try assumption; reflexivity. }
+    destruct es as [|e2 es2].
+    - unfold print_relations. cbn [map join]. rewrite split_on_last by (rewrite forallb_app, Hw2, Hnc; reflexivity).
+      rewrite (read_entries_cons _ _ e); [reflexivity|rewrite Et; apply first_ok_nonempty; exact Hf|rewrite Et; exact Halt].
+    - rewrite print_relations_cons by discriminate.
+      replace (w ++ print_entry vprint e ++ [44; 32]%N ++ print_relations vprint (e2 :: es2))
+        with ((w ++ print_entry vprint e) ++ 44%N :: [32%N] ++ print_relations vprint (e2 :: es2))
+        by (rewrite <- !app_assoc; reflexivity).
+      rewrite split_on_piece by (rewrite !forallb_app, Hw2, Hnc; reflexivity).
+      rewrite (read_entries_cons _ _ e); [|rewrite Et; apply first_ok_nonempty; exact Hf|rewrite Et; exact Halt].
+      rewrite IH; [reflexivity|exact Hes|discriminate|reflexivity|reflexivity].
+  Qed.
+
+  (* Relations::from_str (rs.to_string()) = Ok(rs) *)
+  Theorem relations_rt rs : relations_ok vparse vprint rs ->
+    relations_from_str vparse (print_relations vprint rs) = Ok rs.
+  Proof.
+    intros Hok. destruct rs as [|e es]; [reflexivity|].
+    assert (Hall : Forall alts_ok (e :: es)) by exact Hok.
+    pose proof (read_entries_rt (e :: es) [] Hall ltac:(discriminate) eq_refl eq_refl) as H. cbn [app] in H.
+    unfold relations_from_str.
+    assert (Hf : first_ok (print_relations vprint (e :: es))).
+    { inversion Hall as [|? ? He _]; subst. destruct (print_entry_props e He) as (_ & Hf & _).
+      destruct es; [exact Hf|]. rewrite print_relations_cons by discriminate. apply first_ok_app_l. exact Hf. }
+    pose proof (first_ok_nonempty _ Hf) as Hne. revert H Hne.
+    destruct (print_relations vprint (e :: es)) eqn:E; intros H Hne; [congruence|exact H].
+  Qed.
+End RoundTrip.
